@@ -3,7 +3,9 @@ package main
 import (
 	"fmt"
 	"io"
+	"os"
 	"strings"
+	"time"
 
 	"github.com/cybergarage/go-redis/redis/proto"
 )
@@ -16,12 +18,33 @@ type segReader struct {
 	// dataEOF: the read that hands out the last bytes returns them together with io.EOF (as iotest.DataErrReader
 	// does; the io.Reader contract allows it)
 	dataEOF bool
+	// a transport with read deadlines (net.Conn, tls.Conn): whoever arms one and leaves it armed gets a timeout from the
+	// first read that has to wait for the next segment - segments are an hour apart on this transport's clock
+	deadline time.Time
 }
+
+// idleGap is how long the scripted transports "wait" between two segments (virtual time: nothing sleeps).
+const idleGap = time.Hour
+
+type timeoutError struct{}
+
+func (timeoutError) Error() string   { return "i/o timeout" }
+func (timeoutError) Timeout() bool   { return true }
+func (timeoutError) Temporary() bool { return true }
+func (timeoutError) Unwrap() error   { return os.ErrDeadlineExceeded }
+
+func (s *segReader) SetReadDeadline(t time.Time) error { s.deadline = t; return nil }
+func (s *segReader) SetDeadline(t time.Time) error     { s.deadline = t; return nil }
 
 func (s *segReader) Read(b []byte) (int, error) {
 	s.reads++
+	waited := false
 	for len(s.segs) > 0 && len(s.segs[0]) == 0 {
 		s.segs = s.segs[1:]
+		waited = true
+	}
+	if waited && !s.deadline.IsZero() && time.Now().Add(idleGap).After(s.deadline) {
+		return 0, timeoutError{}
 	}
 	if len(s.segs) == 0 {
 		return 0, io.EOF
